@@ -3,31 +3,33 @@ import Arc.Generated.C17
 import Arc.Proofs.C17.Time
 import Arc.Proofs.C17.Like
 import Arc.Proofs.C17.Url
+import Arc.Proofs.C17.Floor
+import Arc.Proofs.C17.UrlGuard
 /-!
 # C17 — performance rewrites do not change query results
 
 FULL STATEMENT (property text): for every row, arc's rewrites of `date_trunc`, `time_bucket`, the
 URL-domain regex and the LIKE/`<> ''` predicate order give the same value / filter decision as DuckDB on
-the original expression:
+the original expression.  Status per clause on /repo 075e59e:
 
-    theorem C17_date_trunc_full  : ∀ u t, rewrite2 semX G.dtExpr u.secs t = dateTrunc u t
-    theorem C17_time_bucket_full : ∀ s t, 0 < s → rewrite2 semX G.tb2Expr s t = timeBucket (s·10⁶) defaultOriginUs t
-                                   ∀ o r s t, 0 < s → rewrite3 semX G.tb3Expr o s t = timeBucket (s·10⁶) (o·10⁶+r) t
-    theorem C17_like_full        : ∀ endOk v w, evalW v (optimize endOk w) = evalW v w     -- NOW PROVED: C17_like_optimize_full
-    theorem C17_url_full         : ∀ s, caseExpr s = regexReplace s   ∧   caseExpr s = regexExtract s
+    3-argument time_bucket (whole-second origin; others are not rewritten)   PROVED  C17_time_bucket3_full
+    LIKE / `<> ''` reordering                                                PROVED  C17_like_optimize_full
+    URL-domain REGEXP_REPLACE / REGEXP_EXTRACT (the two exact patterns)       PROVED  C17_url_replace_full, C17_url_extract_full
+    date_trunc (second..week) and 2-argument time_bucket                     FALSE   (existing tests pin the
+        epoch template): ∀ u t, rewrite2 semX G.dtExpr u.secs t = dateTrunc u t  and
+        ∀ s t, 0 < s → rewrite2 semX G.tb2Expr s t = timeBucket (s·10⁶) defaultOriginUs t  do not hold.
 
-THE TIME AND URL CLAUSES ARE FALSE of the current source (the LIKE clause was false until /repo e4d9758 and
-is now proved at full strength) (each `*_witness` below is a concrete counterexample that the
-harness reproduced on the real rewrite functions + the real DuckDB).  What is proved instead:
-the EXACT characterisation of the inputs on which rewrite = original (`*_exact`, an `↔` for all
-timestamps / widths / origins / byte strings), full-strength equality under the explicit decidable
-carve-outs (`*_partial`), "never equal" theorems (`week`, widths not dividing the default origin,
-sub-second origins) and the witnesses.
+For the false clause: the EXACT characterisation of the inputs on which rewrite = original (`*_exact`, an
+`↔` for all timestamps / widths), full-strength equality under explicit decidable carve-outs (`*_partial`),
+"never equal" theorems (`week`; widths not dividing the default-origin offset) and witnesses reproduced
+by the harness (10 known-finding keys).  Theorems named `*_prefix_*` are HISTORY: they are about the
+templates/CASE that were in the source before the fix commits and document the fixed findings.
 
 DuckDB's function semantics (Model/C17.lean header) are ASSUMPTIONS validated by the harness against the
 real DuckDB; theorems are over the exact arithmetic `semX`, which coincides with DuckDB's binary64
 arithmetic `semF` for |t| ≤ 2⁵³ µs (validated on every generated timestamp; `C17_far_future_witness`
-shows they part beyond).  `G` = `Arc.Generated.C17`, regenerated from the source on every run.
+shows they part beyond — `to_timestamp(seconds)` multiplies in binary64 in every template).
+`G` = `Arc.Generated.C17`, regenerated from the source on every run.
 -/
 namespace Arc.C17
 open Arc.Generated.C17
@@ -36,7 +38,7 @@ open Arc.Generated.C17
 
 /-- the `fmt.Sprintf` templates of `rewriteTimeBucket` / `rewriteDateTrunc`, parsed by factgen, are the
 epoch-arithmetic expressions the theorems below are about. -/
-theorem C17_generated_templates : tb2Expr = tmpl2 ∧ tb3Expr = tmpl3 ∧ dtExpr = tmpl2 := by decide
+theorem C17_generated_templates : tb2Expr = tmpl2 ∧ tb3Expr = tmpl3Floor ∧ dtExpr = tmpl2 := by decide
 
 /-- `intervalToSeconds` maps every unit to the number of seconds DuckDB's fixed-length interval has
 (0 = leave to DuckDB: month), every unit the `date_trunc` regex accepts is one of them, and the amount is
@@ -49,11 +51,15 @@ theorem C17_generated_units :
   refine ⟨fun u => ?_, by decide, by decide⟩
   cases u <;> decide
 
-/-- the arms of `buildURLDomainCASE` are the four scheme/`www.` prefixes with `substr` starting right
-after the prefix, longest first. -/
-theorem C17_generated_case_arms (s : Bytes) : caseArms caseArmsTbl s = caseExpr s := by
-  have : caseArmsTbl = expectedArms := by decide
-  rw [this]; exact caseArms_expected s
+/-- `buildURLDomainCASEExact`: the four scheme/`www.` prefixes, longest first, `substr` starting right
+after the prefix, the WHEN format with its `LIKE '<p>_%'` / `'<p>_%/%'` tails, the first-character and
+newline guards, and the two exact regexes for which the rewrite fires — as the model (`armOk`,
+`caseGuarded`, `regexReplace`, `regexExtract`) assumes. -/
+theorem C17_generated_case_arms :
+    caseArmsTbl = expectedArms ∧
+    caseWhenFmt = "WHEN %s LIKE '%s%s' AND substr(%s, %d, 1) <> '/'%s THEN split_part(substr(%s, %d), '/', 1) " ∧
+    caseLikeTail = "_%" ∧ caseLikeTailSlash = "_%/%" ∧ caseGuardFmt = " AND position(chr(10) in %s) = 0" ∧
+    urlCanonicalPatterns = ["^https?://(?:www\\.)?([^/]+)/.*$", "^https?://(?:www\\.)?([^/]+)"] := by decide
 
 /-- capture-group permutations of the two LIKE reorderings (`${1}${4}${3}${2}` and
 `parts[1]+parts[4]+parts[3]+parts[2]+parts[5]`): the empty check (group 4) is moved in front of the text
@@ -64,23 +70,36 @@ theorem C17_generated_like_orders :
 
 /-! ## A. date_trunc / time_bucket -/
 
-/-- EXACT: 3-argument `time_bucket` with a whole-second origin `o`: the rewrite equals DuckDB iff
+/-- FULL (since /repo ee4a0eb; origins with a sub-second part are not rewritten since c931596): the
+3-argument `time_bucket` rewrite with a whole-second origin `o` equals DuckDB's `time_bucket` for every
+timestamp — sub-second, before the origin, pre-1970 — and every positive width. -/
+theorem C17_time_bucket3_full (o s t : Int) (hs : 0 < s) :
+    rewrite3 semX tb3Expr o s t = timeBucket (s * usPerSec) (o * usPerSec) t := by
+  rw [C17_generated_templates.2.1]; exact rewrite3_floor o s t hs
+
+/-- the rows of the old witnesses are now bucketed like DuckDB does. -/
+example : rewrite3 semX tb3Expr 1704067200 86400 1704063600000000 = 1703980800000000 := by decide
+example : rewrite3 semX tb3Expr 1704069000 1 1700000000500001 = 1700000000000000 := by decide
+
+/-- HISTORY (template before /repo ee4a0eb, `tmpl3`; findings `time_bucket:before-origin-truncates-toward-zero`,
+now fixed). EXACT: 3-argument `time_bucket` with a whole-second origin `o`: the OLD rewrite equals DuckDB iff
 truncating division of the rounded second count agrees with flooring division of the exact one, i.e.
 (at/after the origin and not rounded up onto a bucket edge) or (before the origin, not rounded up, and
 exactly on a bucket edge). -/
-theorem C17_time_bucket3_exact (o s t : Int) (hs : 0 < s) :
-    rewrite3 semX tb3Expr o s t = timeBucket (s * usPerSec) (o * usPerSec) t ↔
-      Exact (secOf t - o) (upOf t) s := by
-  rw [C17_generated_templates.2.1]; exact tb3_iff o s t hs
+theorem C17_time_bucket3_prefix_exact (o s t : Int) (hs : 0 < s) :
+    rewrite3 semX tmpl3 o s t = timeBucket (s * usPerSec) (o * usPerSec) t ↔
+      Exact (secOf t - o) (upOf t) s :=
+  tb3_iff o s t hs
 
 example : Exact (secOf 1700000000400000 - 1704067200) (upOf 1700000000400000) 60 ↔ False := by decide
 example : Exact (secOf 1710000000400000 - 1704067200) (upOf 1710000000400000) 60 := by decide
 
-/-- NEVER: an origin with a sub-second part `r` is truncated by `originTime.Unix()`; the rewrite is
+/-- HISTORY (before /repo c931596, which leaves such calls to DuckDB; finding
+`time_bucket:origin-subsecond-truncated`, now fixed). NEVER: an origin with a sub-second part `r` was truncated by `originTime.Unix()`; the rewrite is
 then a whole second, DuckDB's bucket is not. -/
-theorem C17_time_bucket3_subsecond_origin_never (o r s t : Int) (hr : 0 < r ∧ r < usPerSec) :
-    rewrite3 semX tb3Expr o s t ≠ timeBucket (s * usPerSec) (o * usPerSec + r) t := by
-  rw [C17_generated_templates.2.1, rewrite3_tmpl3]
+theorem C17_time_bucket3_prefix_subsecond_origin_never (o r s t : Int) (hr : 0 < r ∧ r < usPerSec) :
+    rewrite3 semX tmpl3 o s t ≠ timeBucket (s * usPerSec) (o * usPerSec + r) t := by
+  rw [rewrite3_tmpl3]
   unfold timeBucket
   intro h
   have h1 : ((o + Int.tdiv (secOf t - o + upOf t) s * s) * usPerSec) % usPerSec = 0 :=
@@ -175,20 +194,8 @@ theorem C17_date_trunc_week_never (t : Int) : rewrite2 semX dtExpr 604800 t ≠ 
   simp only
   omega
 
-/-- PARTIAL (carve-out: at/after the origin, sub-second part below one half): full-strength equality. -/
-theorem C17_time_bucket3_partial (o s t : Int) (hs : 0 < s)
-    (hge : o * usPerSec ≤ t) (hfrac : fracOf t < 500000) :
-    rewrite3 semX tb3Expr o s t = timeBucket (s * usPerSec) (o * usPerSec) t := by
-  rw [C17_time_bucket3_exact o s t hs, upOf_zero_of_frac_lt t hfrac]
-  left
-  have : o ≤ secOf t := by
-    unfold secOf
-    have := Int.le_ediv_of_mul_le (c := usPerSec) (by decide) hge
-    exact this
-  exact ⟨by omega, Or.inl rfl⟩
-
-example : (1704067200 : Int) * usPerSec ≤ 1710000000400000 ∧ fracOf 1710000000400000 < 500000 := by decide
-
+/-- PARTIAL (carve-out: width divides the default-origin offset, t ≥ 0, sub-second part below one half):
+full-strength equality of the 2-argument rewrite. -/
 theorem C17_time_bucket2_partial (s t : Int) (hs : 0 < s) (hdiv : defaultOriginSec % s = 0)
     (hge : 0 ≤ t) (hfrac : fracOf t < 500000) :
     rewrite2 semX tb2Expr s t = timeBucket (s * usPerSec) defaultOriginUs t := by
@@ -229,9 +236,10 @@ theorem C17_time_bucket_default_origin_witness :
     rewrite2 semX tb2Expr 25200 1704258000000000 = 1704250800000000 ∧
     timeBucket (25200 * usPerSec) defaultOriginUs 1704258000000000 = 1704243600000000 := by decide
 
-/-- origin 2024-01-01, 1-day buckets, a row one hour before the origin: DuckDB 2023-12-31, rewrite 2024-01-01. -/
-theorem C17_time_bucket_before_origin_witness :
-    rewrite3 semX tb3Expr 1704067200 86400 1704063600000000 = 1704067200000000 ∧
+/-- HISTORY (pre-ee4a0eb template): origin 2024-01-01, 1-day buckets, a row one hour before the origin:
+DuckDB 2023-12-31, old rewrite 2024-01-01. -/
+theorem C17_time_bucket_before_origin_prefix_witness :
+    rewrite3 semX tmpl3 1704067200 86400 1704063600000000 = 1704067200000000 ∧
     timeBucket (86400 * usPerSec) (1704067200 * usPerSec) 1704063600000000 = 1703980800000000 := by decide
 
 /-- year 128 723: DuckDB's double arithmetic (`semF`) moves even a whole-second timestamp by 64 µs. -/
@@ -282,39 +290,52 @@ theorem C17_like_prefix_witness :
 
 /-! ## C. URL-domain regex → CASE/split_part -/
 
-/-- EXACT: the CASE expression equals `REGEXP_REPLACE(s, '^https?://(?:www\.)?([^/]+)/.*$', '\1')` iff
-s has no scheme and no '/', or s has a scheme and the (www-stripped) remainder is `host/…` with a
-non-empty host, a '/' after it and no newline in the path. -/
-theorem C17_url_replace_exact (s : Bytes) : caseArms caseArmsTbl s = regexReplace s ↔ ReplaceOk s := by
-  rw [C17_generated_case_arms]; exact replace_exact s
+/-- FULL (since /repo c3f571e + 075e59e): for every byte string, the guarded CASE expression that replaces
+`REGEXP_REPLACE(s, '^https?://(?:www\.)?([^/]+)/.*$', '\1')` has the value of that call (a WHEN arm
+fires only where the string functions agree with the regex; every other row evaluates the call). -/
+theorem C17_url_replace_full (s : Bytes) :
+    caseGuarded true regexReplace caseArmsTbl s = regexReplace s := by
+  rw [C17_generated_case_arms.1]; exact replace_guarded s
 
-/-- EXACT: the CASE expression equals `REGEXP_EXTRACT(s, '^https?://(?:www\.)?([^/]+)', 1)` iff s has no
-scheme and starts with '/' or is empty, or s has a scheme and is not `www.` followed by '/' or the end. -/
-theorem C17_url_extract_exact (s : Bytes) : caseArms caseArmsTbl s = regexExtract s ↔ ExtractOk s := by
-  rw [C17_generated_case_arms]; exact extract_exact s
+/-- FULL: the same for `REGEXP_EXTRACT(s, '^https?://(?:www\.)?([^/]+)', 1)`. -/
+theorem C17_url_extract_full (s : Bytes) :
+    caseGuarded false regexExtract caseArmsTbl s = regexExtract s := by
+  rw [C17_generated_case_arms.1]; exact extract_guarded s
 
-theorem C17_url_replace_partial (s : Bytes) (h : ReplaceOk s) : caseArms caseArmsTbl s = regexReplace s :=
-  (C17_url_replace_exact s).mpr h
-theorem C17_url_extract_partial (s : Bytes) (h : ExtractOk s) : caseArms caseArmsTbl s = regexExtract s :=
-  (C17_url_extract_exact s).mpr h
+/-- non-vacuity: on "https://www.a.com/x" the first WHEN arm fires (the fast path is really taken) … -/
+example : armOk true ((bHttps ++ bWww ++ [97, 46, 99, 111, 109, 47, 120]).drop 12)
+    (bHttps ++ bWww ++ [97, 46, 99, 111, 109, 47, 120]) = true ∧
+    caseGuarded true (fun _ => []) caseArmsTbl (bHttps ++ bWww ++ [97, 46, 99, 111, 109, 47, 120])
+      = [97, 46, 99, 111, 109] := by decide
+/-- … and on "http://a.b" (no path) no arm fires. -/
+example : caseGuarded true (fun _ => [1]) caseArmsTbl (bHttp ++ [97, 46, 98]) = [1] := by decide
 
-/-- "https://www.a.com/x" satisfies both carve-outs. -/
-example : ReplaceOk (bHttps ++ bWww ++ [97, 46, 99, 111, 109, 47, 120]) ∧
-    ExtractOk (bHttps ++ bWww ++ [97, 46, 99, 111, 109, 47, 120]) := by decide
+/-! ### HISTORY: the unguarded CASE of `buildURLDomainCASE` (`caseExpr`), used until c3f571e
+(findings `url-replace:*`, `url-extract:*`, now fixed) -/
 
-/-- WITNESS "http://a.b" (no path): regexp_replace leaves the input, the CASE returns "a.b". -/
-theorem C17_url_replace_witness_nopath :
+/-- EXACT (old CASE): it equalled `REGEXP_REPLACE(…)` iff s has no scheme and no '/', or s has a scheme and
+the (www-stripped) remainder is `host/…` with a non-empty host, a '/' after it and no newline in the path. -/
+theorem C17_url_prefix_replace_exact (s : Bytes) : caseExpr s = regexReplace s ↔ ReplaceOk s :=
+  replace_exact s
+
+/-- EXACT (old CASE): it equalled `REGEXP_EXTRACT(…)` iff s has no scheme and starts with '/' or is empty,
+or s has a scheme and is not `www.` followed by '/' or the end. -/
+theorem C17_url_prefix_extract_exact (s : Bytes) : caseExpr s = regexExtract s ↔ ExtractOk s :=
+  extract_exact s
+
+/-- WITNESS (old CASE) "http://a.b" (no path): regexp_replace leaves the input, the CASE returned "a.b". -/
+theorem C17_url_prefix_witness_nopath :
     regexReplace (bHttp ++ [97, 46, 98]) = bHttp ++ [97, 46, 98] ∧
-    caseArms caseArmsTbl (bHttp ++ [97, 46, 98]) = [97, 46, 98] := by decide
+    caseExpr (bHttp ++ [97, 46, 98]) = [97, 46, 98] := by decide
 
-/-- WITNESS "a/b" (no scheme): regexp_replace leaves "a/b", regexp_extract gives "", the CASE gives "a". -/
-theorem C17_url_noscheme_witness :
+/-- WITNESS (old CASE) "a/b" (no scheme): regexp_replace leaves "a/b", regexp_extract gives "", the CASE gave "a". -/
+theorem C17_url_prefix_witness_noscheme :
     regexReplace [97, 47, 98] = [97, 47, 98] ∧ regexExtract [97, 47, 98] = [] ∧
-    caseArms caseArmsTbl [97, 47, 98] = [97] := by decide
+    caseExpr [97, 47, 98] = [97] := by decide
 
-/-- WITNESS "https://www./x": both regexes backtrack to host "www.", the CASE gives "". -/
-theorem C17_url_www_witness :
+/-- WITNESS (old CASE) "https://www./x": both regexes backtrack to host "www.", the CASE gave "". -/
+theorem C17_url_prefix_witness_www :
     regexReplace (bHttps ++ bWww ++ [47, 120]) = bWww ∧ regexExtract (bHttps ++ bWww ++ [47, 120]) = bWww ∧
-    caseArms caseArmsTbl (bHttps ++ bWww ++ [47, 120]) = [] := by decide
+    caseExpr (bHttps ++ bWww ++ [47, 120]) = [] := by decide
 
 end Arc.C17
